@@ -1,6 +1,646 @@
-//! C09 — harness module not built yet.
+//! C09 — collection tokens: minted only by the minter, ids unique, freezes are final.
+//! Histories of mint / transfer / send / approve / revoke / approve_all / revoke_all /
+//! burn / update-collection-info / start-trading-time / freeze / ownership transfer /
+//! token-metadata update, freeze and enable, from arbitrary callers, on every collection
+//! variant (sg721-base, sg721-updatable fresh and migrated, sg721-metadata-onchain,
+//! sg721-nt), instantiated through the puppet.  After every call CollectionInfo,
+//! NumTokens, AllTokens, OwnerOf, NftInfo, Minter/Ownership, AllOperators and the
+//! updatable flags are read back; the monitors below evaluate the property text on them.
+use crate::chain;
+use crate::util::*;
+use crate::w_collection::*;
 use crate::Args;
-pub fn run(_a: &Args) {
-    eprintln!("C09: harness module not built yet");
-    std::process::exit(2);
+use serde::Deserialize;
+use std::collections::BTreeSet;
+use std::hash::{Hash, Hasher};
+
+const T0: u64 = chain::GENESIS_NS + 1_000_000_000;
+const SEC: u64 = 1_000_000_000;
+const URIS: [&str; 3] = ["ipfs://meta/1.json", "ipfs://meta/2.json", "https://example.com/m/3"];
+
+fn st(at: u64, sender: &str, op: Op) -> Step {
+    Step { at, sender: sender.into(), op, funds: vec![] }
+}
+fn stf(at: u64, sender: &str, op: Op, funds: Vec<(&str, u128)>) -> Step {
+    Step { at, sender: sender.into(), op, funds: funds.into_iter().map(|(d, a)| (d.to_string(), a)).collect() }
+}
+fn mint(id: u64, owner: &str) -> Op {
+    Op::Mint { id, owner: owner.into(), uri: Some(URIS[0].into()) }
+}
+fn upd(f: impl FnOnce(&mut UpdSpec)) -> Op {
+    let mut u = UpdSpec { explicit_content: Some(false), ..Default::default() };
+    f(&mut u);
+    Op::UpdateInfo(u)
+}
+
+/// every mutating message once, from the given sender (used after freezes and on sg721-nt)
+fn every_message(t: &mut u64, sender: &str, id: u64) -> Vec<Step> {
+    let mut v = vec![];
+    let mut push = |op: Op| {
+        *t += SEC;
+        v.push(st(*t, sender, op));
+    };
+    push(upd(|u| u.description = Some("changed".into())));
+    push(upd(|u| u.image = Some(VALID_URLS[1].into())));
+    push(upd(|u| u.external_link = Some(VALID_URLS[3].into())));
+    push(upd(|u| u.explicit_content = Some(true)));
+    push(upd(|u| u.explicit_content = None));
+    push(upd(|u| u.creator = Some("creator2".into())));
+    push(upd(|u| u.royalty = Some(Roy { addr: "carol".into(), share: 4 * PCT })));
+    push(Op::StartTrading(Some(T0 + 77)));
+    push(Op::FreezeInfo);
+    push(Op::Mint { id: id + 50, owner: "bob".into(), uri: None });
+    push(Op::Approve { spender: "carol".into(), id, exp: None });
+    push(Op::ApproveAll { operator: "carol".into(), exp: None });
+    push(Op::Transfer { to: "bob".into(), id });
+    push(Op::Send { to: PUPPET.into(), id });
+    push(Op::Revoke { spender: "carol".into(), id });
+    push(Op::RevokeAll { operator: "carol".into() });
+    push(Op::UpdateTokenMd { id, uri: Some(URIS[2].into()) });
+    push(Op::UpdateTokenMd { id: id + 50, uri: None });
+    push(Op::FreezeTokenMd);
+    push(Op::EnableUpdatable);
+    push(Op::OwnTransfer { new_owner: "minter2".into(), exp: None });
+    push(Op::OwnAccept);
+    push(Op::Burn { id });
+    push(Op::OwnRenounce);
+    v
+}
+
+fn scripted(v: Variant) -> Vec<Hist> {
+    let mut out = vec![];
+    let base = default_setup(v);
+    // S1: life cycle, duplicate ids, foreign minters, burn and re-mint
+    out.push(Hist {
+        setup: base.clone(),
+        steps: vec![
+            st(T0 + 1, PUPPET, mint(1, "alice")),
+            st(T0 + 2, PUPPET, mint(1, "bob")),
+            st(T0 + 3, "creator", mint(2, "creator")),
+            st(T0 + 4, "alice", mint(2, "alice")),
+            st(T0 + 5, PUPPET, Op::Mint { id: 0, owner: "bob".into(), uri: None }),
+            st(T0 + 6, PUPPET, mint(2, PUPPET)),
+            st(T0 + 7, "alice", Op::Transfer { to: "bob".into(), id: 1 }),
+            st(T0 + 8, "alice", Op::Transfer { to: "alice".into(), id: 1 }),
+            st(T0 + 9, "bob", Op::Approve { spender: "carol".into(), id: 1, exp: None }),
+            st(T0 + 10, "carol", Op::Transfer { to: "carol".into(), id: 1 }),
+            st(T0 + 11, "bob", Op::Burn { id: 1 }),
+            st(T0 + 12, "carol", Op::Burn { id: 1 }),
+            st(T0 + 13, "carol", Op::Burn { id: 1 }),
+            st(T0 + 14, PUPPET, Op::Mint { id: 1, owner: "bob".into(), uri: Some(URIS[1].into()) }),
+            st(T0 + 15, PUPPET, Op::Burn { id: 2 }),
+            st(T0 + 16, PUPPET, Op::Burn { id: 0 }),
+            st(T0 + 17, "bob", Op::Burn { id: 0 }),
+            st(T0 + 18, "bob", Op::Burn { id: 7 }),
+        ],
+    });
+    // S2: ownership hand-over, then mint by old / new owner; expiry at t-1 / t / t+1
+    for (exp, accept_at) in [(None, T0 + 20), (Some(Exp::Never), T0 + 20), (Some(Exp::At(T0 + 20)), T0 + 19), (Some(Exp::At(T0 + 20)), T0 + 20), (Some(Exp::At(T0 + 20)), T0 + 21)] {
+        out.push(Hist {
+            setup: base.clone(),
+            steps: vec![
+                st(T0 + 1, "minter2", Op::OwnTransfer { new_owner: "minter2".into(), exp: None }),
+                st(T0 + 2, PUPPET, Op::OwnTransfer { new_owner: "minter2".into(), exp: exp.clone() }),
+                st(T0 + 3, "minter2", mint(1, "alice")),
+                st(T0 + 4, PUPPET, mint(1, "alice")),
+                st(T0 + 5, "alice", Op::OwnAccept),
+                st(accept_at, "minter2", Op::OwnAccept),
+                st(accept_at + 1, PUPPET, mint(2, "alice")),
+                st(accept_at + 2, "minter2", mint(2, "bob")),
+                st(accept_at + 3, "minter2", mint(1, "bob")),
+                st(accept_at + 3, "minter2", mint(2, "bob")),
+                st(accept_at + 4, "minter2", Op::StartTrading(Some(T0 + 500))),
+                st(accept_at + 4, PUPPET, Op::StartTrading(Some(T0 + 600))),
+                st(accept_at + 5, PUPPET, Op::OwnRenounce),
+                st(accept_at + 6, "minter2", Op::OwnRenounce),
+                st(accept_at + 7, "minter2", mint(3, "bob")),
+                st(accept_at + 8, PUPPET, mint(3, "bob")),
+                st(accept_at + 9, "minter2", Op::OwnTransfer { new_owner: "alice".into(), exp: None }),
+                st(accept_at + 10, "minter2", Op::OwnAccept),
+            ],
+        });
+    }
+    // a plain account as the minter from the start; pending transfer overwritten
+    out.push(Hist {
+        setup: Setup { minter: "minter2".into(), ..base.clone() },
+        steps: vec![
+            st(T0 + 1, PUPPET, mint(1, "alice")),
+            st(T0 + 2, "minter2", mint(1, "alice")),
+            st(T0 + 3, "minter2", Op::OwnTransfer { new_owner: "alice".into(), exp: None }),
+            st(T0 + 4, "minter2", Op::OwnTransfer { new_owner: "bob".into(), exp: None }),
+            st(T0 + 5, "alice", Op::OwnAccept),
+            st(T0 + 6, "bob", Op::OwnAccept),
+            st(T0 + 7, "bob", mint(2, "bob")),
+            st(T0 + 8, "minter2", mint(3, "bob")),
+        ],
+    });
+    // S3: freeze, then every mutating message from creator, minter, token owner, stranger
+    for freezer in ["alice", PUPPET, "creator"] {
+        let mut steps = vec![st(T0 + 1, PUPPET, mint(1, "alice")), st(T0 + 2, freezer, Op::FreezeInfo)];
+        let mut t = T0 + 10;
+        for who in ["creator", PUPPET, "alice", "carol"] {
+            steps.extend(every_message(&mut t, who, 1));
+        }
+        out.push(Hist { setup: base.clone(), steps });
+    }
+    // the new creator freezes after a hand-over of the creator role
+    out.push(Hist {
+        setup: base.clone(),
+        steps: vec![
+            st(T0 + 1, "creator", upd(|u| u.creator = Some("creator2".into()))),
+            st(T0 + 2, "creator", Op::FreezeInfo),
+            st(T0 + 3, "creator", upd(|u| u.description = Some("x".into()))),
+            st(T0 + 4, "creator2", upd(|u| u.description = Some("y".into()))),
+            st(T0 + 5, "creator2", Op::FreezeInfo),
+            st(T0 + 6, "creator2", upd(|u| u.description = Some("z".into()))),
+            st(T0 + 7, "creator2", upd(|u| u.creator = Some("creator".into()))),
+            st(T0 + 8, PUPPET, Op::StartTrading(None)),
+            st(T0 + 9, PUPPET, Op::StartTrading(Some(T0 + 99))),
+            st(T0 + 10, "creator2", Op::FreezeInfo),
+        ],
+    });
+    // S4: token metadata on updatable collections (every other variant rejects all of it)
+    out.push(Hist {
+        setup: base.clone(),
+        steps: vec![
+            st(T0 + 1, PUPPET, mint(1, "alice")),
+            st(T0 + 2, PUPPET, Op::Mint { id: 2, owner: "bob".into(), uri: None }),
+            st(T0 + 3, "creator", Op::UpdateTokenMd { id: 1, uri: Some(URIS[1].into()) }),
+            stf(T0 + 4, "creator", Op::EnableUpdatable, vec![(NATIVE, ENABLE_FEE - 1)]),
+            stf(T0 + 5, "alice", Op::EnableUpdatable, vec![(NATIVE, ENABLE_FEE)]),
+            stf(T0 + 6, "creator", Op::EnableUpdatable, vec![("uother", ENABLE_FEE)]),
+            stf(T0 + 7, "creator", Op::EnableUpdatable, vec![(NATIVE, ENABLE_FEE), ("uother", 1)]),
+            st(T0 + 8, "creator", Op::EnableUpdatable),
+            stf(T0 + 9, "creator", Op::EnableUpdatable, vec![(NATIVE, ENABLE_FEE + 1)]),
+            stf(T0 + 10, "creator", Op::EnableUpdatable, vec![(NATIVE, ENABLE_FEE)]),
+            st(T0 + 11, "alice", Op::UpdateTokenMd { id: 1, uri: Some(URIS[1].into()) }),
+            st(T0 + 12, PUPPET, Op::UpdateTokenMd { id: 1, uri: Some(URIS[1].into()) }),
+            st(T0 + 13, "creator", Op::UpdateTokenMd { id: 3, uri: Some(URIS[1].into()) }),
+            stf(T0 + 14, "creator", Op::UpdateTokenMd { id: 1, uri: Some(URIS[1].into()) }, vec![(NATIVE, 1)]),
+            st(T0 + 15, "creator", Op::UpdateTokenMd { id: 1, uri: Some(URIS[1].into()) }),
+            st(T0 + 16, "creator", Op::UpdateTokenMd { id: 2, uri: Some(URIS[2].into()) }),
+            st(T0 + 17, "creator", Op::UpdateTokenMd { id: 1, uri: None }),
+            st(T0 + 18, "alice", Op::FreezeTokenMd),
+            st(T0 + 19, PUPPET, Op::FreezeTokenMd),
+            stf(T0 + 20, "creator", Op::FreezeTokenMd, vec![(NATIVE, 1)]),
+            st(T0 + 21, "creator", Op::FreezeTokenMd),
+            st(T0 + 22, "creator", Op::UpdateTokenMd { id: 1, uri: Some(URIS[0].into()) }),
+            st(T0 + 23, "creator", Op::UpdateTokenMd { id: 2, uri: None }),
+            st(T0 + 24, PUPPET, Op::UpdateTokenMd { id: 2, uri: None }),
+            st(T0 + 25, "creator", Op::FreezeTokenMd),
+            stf(T0 + 26, "creator", Op::EnableUpdatable, vec![(NATIVE, ENABLE_FEE)]),
+            st(T0 + 27, "creator", Op::UpdateTokenMd { id: 1, uri: Some(URIS[0].into()) }),
+            st(T0 + 28, "bob", Op::Burn { id: 2 }),
+            st(T0 + 29, PUPPET, Op::Mint { id: 2, owner: "bob".into(), uri: Some(URIS[2].into()) }),
+        ],
+    });
+    // metadata freeze before enabling (migrated collections), creator hand-over
+    out.push(Hist {
+        setup: base.clone(),
+        steps: vec![
+            st(T0 + 1, PUPPET, mint(1, "alice")),
+            st(T0 + 2, "creator", upd(|u| u.creator = Some("creator2".into()))),
+            st(T0 + 3, "creator", Op::UpdateTokenMd { id: 1, uri: None }),
+            st(T0 + 4, "creator2", Op::UpdateTokenMd { id: 1, uri: None }),
+            st(T0 + 5, "creator", Op::FreezeTokenMd),
+            st(T0 + 6, "creator2", Op::FreezeTokenMd),
+            stf(T0 + 7, "creator2", Op::EnableUpdatable, vec![(NATIVE, ENABLE_FEE)]),
+            st(T0 + 8, "creator2", Op::UpdateTokenMd { id: 1, uri: Some(URIS[1].into()) }),
+        ],
+    });
+    // S5: approvals, operators, expirations at t-1 / t / t+1, send to contract / account
+    for at in [T0 + 29, T0 + 30, T0 + 31] {
+        out.push(Hist {
+            setup: base.clone(),
+            steps: vec![
+                st(T0 + 1, PUPPET, mint(1, "alice")),
+                st(T0 + 2, PUPPET, mint(2, "alice")),
+                st(T0 + 3, PUPPET, mint(3, "alice")),
+                st(T0 + 4, "alice", Op::Approve { spender: "bob".into(), id: 1, exp: Some(Exp::At(T0 + 30)) }),
+                st(T0 + 5, "alice", Op::Approve { spender: "carol".into(), id: 1, exp: Some(Exp::At(T0 + 5)) }),
+                st(T0 + 5, "alice", Op::Approve { spender: "carol".into(), id: 1, exp: Some(Exp::At(T0 + 6)) }),
+                st(T0 + 6, "alice", Op::ApproveAll { operator: "carol".into(), exp: Some(Exp::At(T0 + 30)) }),
+                st(T0 + 7, "alice", Op::ApproveAll { operator: "bob".into(), exp: Some(Exp::At(T0 + 7)) }),
+                st(T0 + 8, "bob", Op::Approve { spender: "bob".into(), id: 2, exp: None }),
+                st(T0 + 9, "carol", Op::Approve { spender: "bob".into(), id: 2, exp: None }),
+                st(T0 + 10, "carol", Op::Approve { spender: "bob".into(), id: 1, exp: Some(Exp::Never) }),
+                st(T0 + 11, "bob", Op::Revoke { spender: "carol".into(), id: 1 }),
+                st(T0 + 12, "carol", Op::Revoke { spender: "bob".into(), id: 2 }),
+                st(at, "bob", Op::Transfer { to: "bob".into(), id: 1 }),
+                st(at, "carol", Op::Transfer { to: "carol".into(), id: 2 }),
+                st(at, "carol", Op::Approve { spender: "bob".into(), id: 3, exp: None }),
+                st(at + 1, "alice", Op::RevokeAll { operator: "carol".into() }),
+                st(at + 1, "alice", Op::RevokeAll { operator: "creator".into() }),
+                st(at + 2, "alice", Op::Send { to: "bob".into(), id: 3 }),
+                st(at + 2, "alice", Op::Send { to: "contract1".into(), id: 3 }),
+                st(at + 3, "alice", Op::Send { to: PUPPET.into(), id: 3 }),
+                st(at + 4, "alice", Op::Transfer { to: "alice".into(), id: 3 }),
+                st(at + 5, PUPPET, Op::Transfer { to: "alice".into(), id: 3 }),
+                st(at + 6, "carol", Op::Burn { id: 3 }),
+                st(at + 7, "alice", Op::ApproveAll { operator: "alice".into(), exp: None }),
+            ],
+        });
+    }
+    // S6: every message from the token owner / minter / stranger on a fresh collection
+    // (on sg721-nt: nothing but mint, burn, update info, freeze exists)
+    {
+        let mut steps = vec![st(T0 + 1, PUPPET, mint(1, "alice"))];
+        let mut t = T0 + 10;
+        for who in ["carol", "alice"] {
+            steps.extend(every_message(&mut t, who, 1));
+        }
+        steps.push(st(t + 1, PUPPET, mint(1, "alice")));
+        for who in [PUPPET, "creator"] {
+            steps.extend(every_message(&mut t, who, 1));
+        }
+        out.push(Hist { setup: base.clone(), steps });
+    }
+    // S7: instantiation guards
+    let mut bad = vec![];
+    bad.push(Setup { by_contract: false, ..base.clone() });
+    bad.push(Setup { funds0: 1, ..base.clone() });
+    for d in [0usize, 1, 511, 512, 513] {
+        let mut s = base.clone();
+        s.info.description = "d".repeat(d);
+        bad.push(s);
+    }
+    for l in harvest_literals(&["contracts/collections/sg721-base/src/contract.rs"]) {
+        if l > 1 && l < 5000 && l != 512 {
+            for d in [l - 1, l, l + 1] {
+                let mut s = base.clone();
+                s.info.description = "d".repeat(d as usize);
+                bad.push(s);
+            }
+        }
+    }
+    for d in [256usize, 257] {
+        let mut s = base.clone();
+        s.info.description = "\u{e9}".repeat(d); // two bytes each: 512 / 514 bytes
+        bad.push(s);
+    }
+    for u in INVALID_URLS.iter().chain(VALID_URLS.iter()) {
+        let mut s = base.clone();
+        s.info.image = u.to_string();
+        bad.push(s);
+        let mut s = base.clone();
+        s.info.external_link = Some(u.to_string());
+        bad.push(s);
+    }
+    {
+        let mut s = base.clone();
+        s.info.external_link = None;
+        s.info.explicit_content = None;
+        s.info.start_trading_time = Some(T0 + 1000);
+        s.info.royalty = None;
+        bad.push(s);
+    }
+    for s in bad {
+        out.push(Hist { setup: s, steps: vec![st(T0 + 1, PUPPET, mint(1, "alice")), st(T0 + 2, "creator", upd(|u| u.description = Some("k".into())))] });
+    }
+    // S8: update_collection_info field semantics and guards
+    {
+        let mut steps = vec![];
+        let mut t = T0;
+        let mut push = |who: &str, op: Op| {
+            t += SEC;
+            steps.push(st(t, who, op));
+        };
+        for d in [512usize, 513] {
+            push("creator", upd(|u| u.description = Some("e".repeat(d))));
+            push("creator", upd(|u| u.description = Some("\u{e9}".repeat(d / 2 + d % 2))));
+        }
+        for u_ in INVALID_URLS.iter().chain(VALID_URLS.iter()) {
+            push("creator", upd(|u| u.image = Some(u_.to_string())));
+            push("creator", upd(|u| u.external_link = Some(u_.to_string())));
+        }
+        push("creator", upd(|u| u.explicit_content = Some(true)));
+        push("creator", Op::UpdateInfo(UpdSpec::default()));
+        push("alice", upd(|u| u.description = Some("by alice".into())));
+        push(PUPPET, upd(|u| u.description = Some("by minter".into())));
+        push("creator", upd(|u| u.creator = Some("creator2".into())));
+        push("creator", upd(|u| u.description = Some("old creator".into())));
+        push("creator2", upd(|u| {
+            u.description = Some("new creator".into());
+            u.image = Some(VALID_URLS[3].into());
+            u.external_link = Some(VALID_URLS[0].into());
+            u.explicit_content = Some(true);
+        }));
+        push("creator2", Op::StartTrading(Some(T0 + 5)));
+        push("alice", Op::StartTrading(Some(T0 + 5)));
+        push(PUPPET, Op::StartTrading(Some(T0 + 5)));
+        push(PUPPET, Op::StartTrading(None));
+        out.push(Hist { setup: base.clone(), steps });
+    }
+    out
+}
+
+fn random_hist(v: Variant, rng: &mut Rng, len: usize) -> Runner {
+    let mut setup = default_setup(v);
+    if rng.chance(1, 3) {
+        setup.minter = "minter2".into();
+    }
+    if rng.chance(1, 4) {
+        setup.info.royalty = None;
+    }
+    let mut r = Runner::new(&setup);
+    if !r.alive() {
+        return r;
+    }
+    let mut t = T0 + 1;
+    let mut instants: Vec<u64> = vec![];
+    let users = ["alice", "bob", "carol", "creator", "creator2", "minter2", PUPPET];
+    for _ in 0..len {
+        // clock: small steps, or onto / around an expiry that exists
+        t = if !instants.is_empty() && rng.chance(1, 4) {
+            let x = *rng.pick(&instants);
+            let c = match rng.below(3) {
+                0 => x.saturating_sub(1),
+                1 => x,
+                _ => x + 1,
+            };
+            c.max(t)
+        } else {
+            t + rng.range(0, 3) * SEC
+        };
+        let o = r.obs().clone();
+        let creator = o.info.creator.clone();
+        let minter = o.minter.clone();
+        let valid = rng.chance(3, 4);
+        let any = |rng: &mut Rng| rng.pick(&users).to_string();
+        let existing: Vec<u64> = o.tokens.iter().map(|x| x.id[1..].parse::<u64>().unwrap()).collect();
+        let pick_tok = |rng: &mut Rng| -> u64 {
+            if !existing.is_empty() && rng.chance(5, 6) {
+                *rng.pick(&existing)
+            } else {
+                rng.below(6)
+            }
+        };
+        let owner_of = |id: u64| o.token(&token_name(id)).map(|x| x.owner.clone());
+        let exp = |rng: &mut Rng, t: u64, instants: &mut Vec<u64>| -> Option<Exp> {
+            match rng.below(6) {
+                0 => None,
+                1 => Some(Exp::Never),
+                2 => Some(Exp::At(t)),
+                3 => Some(Exp::At(t.saturating_sub(5))),
+                _ => {
+                    let x = t + rng.range(1, 6) * SEC;
+                    instants.push(x);
+                    Some(Exp::At(x))
+                }
+            }
+        };
+        let mut funds: Vec<(String, u128)> = vec![];
+        let (sender, op) = match rng.below(100) {
+            0..=17 => {
+                let id = if valid { (0..8).find(|i| !existing.contains(i)).unwrap_or(9) } else { pick_tok(rng) };
+                let s = if valid { minter.clone().unwrap_or_else(|| any(rng)) } else { any(rng) };
+                let uri = if rng.chance(1, 3) { None } else { Some(rng.pick(&URIS).to_string()) };
+                (s, Op::Mint { id, owner: any(rng), uri })
+            }
+            18..=29 => {
+                let id = pick_tok(rng);
+                let s = if valid { owner_of(id).unwrap_or_else(|| any(rng)) } else { any(rng) };
+                (s, Op::Transfer { to: any(rng), id })
+            }
+            30..=34 => {
+                let id = pick_tok(rng);
+                let s = if valid { owner_of(id).unwrap_or_else(|| any(rng)) } else { any(rng) };
+                let to = if rng.chance(2, 3) { PUPPET.to_string() } else { rng.pick(&["bob", "contract1"]).to_string() };
+                (s, Op::Send { to, id })
+            }
+            35..=43 => {
+                let id = pick_tok(rng);
+                let s = if valid { owner_of(id).unwrap_or_else(|| any(rng)) } else { any(rng) };
+                (s, Op::Approve { spender: any(rng), id, exp: exp(rng, t, &mut instants) })
+            }
+            44..=47 => {
+                let id = pick_tok(rng);
+                let s = if valid { owner_of(id).unwrap_or_else(|| any(rng)) } else { any(rng) };
+                (s, Op::Revoke { spender: any(rng), id })
+            }
+            48..=54 => (any(rng), Op::ApproveAll { operator: any(rng), exp: exp(rng, t, &mut instants) }),
+            55..=57 => (any(rng), Op::RevokeAll { operator: any(rng) }),
+            58..=65 => {
+                let id = pick_tok(rng);
+                let s = if valid { owner_of(id).unwrap_or_else(|| any(rng)) } else { any(rng) };
+                (s, Op::Burn { id })
+            }
+            66..=74 => {
+                let s = if valid { creator.clone() } else { any(rng) };
+                let mut u = UpdSpec { explicit_content: o.info.explicit_content, ..Default::default() };
+                match rng.below(7) {
+                    0 => u.description = Some(if rng.chance(1, 5) { "q".repeat(513) } else { format!("desc {}", rng.below(3)) }),
+                    1 => u.image = Some(if rng.chance(1, 4) { rng.pick(&INVALID_URLS).to_string() } else { rng.pick(&VALID_URLS).to_string() }),
+                    2 => u.external_link = Some(if rng.chance(1, 4) { rng.pick(&INVALID_URLS).to_string() } else { rng.pick(&VALID_URLS).to_string() }),
+                    3 => u.explicit_content = *rng.pick(&[None, Some(true), Some(false)]),
+                    4 => u.creator = Some(rng.pick(&["creator", "creator2", "alice"]).to_string()),
+                    5 => u.royalty = Some(Roy { addr: "royalty".into(), share: rng.below(8) as u128 * PCT }),
+                    _ => {}
+                }
+                (s, Op::UpdateInfo(u))
+            }
+            75..=77 => {
+                let s = if valid { minter.clone().unwrap_or_else(|| any(rng)) } else { any(rng) };
+                (s, Op::StartTrading(if rng.chance(1, 4) { None } else { Some(t + rng.below(1000)) }))
+            }
+            78..=80 => ((if rng.chance(1, 2) { creator.clone() } else { any(rng) }), Op::FreezeInfo),
+            81..=84 => {
+                let s = if valid { minter.clone().unwrap_or_else(|| any(rng)) } else { any(rng) };
+                (s, Op::OwnTransfer { new_owner: any(rng), exp: exp(rng, t, &mut instants) })
+            }
+            85..=87 => ((if valid { o.pending.clone().unwrap_or_else(|| any(rng)) } else { any(rng) }), Op::OwnAccept),
+            88 => ((if rng.chance(1, 3) { minter.clone().unwrap_or_else(|| any(rng)) } else { any(rng) }), Op::OwnRenounce),
+            89..=94 => {
+                let s = if valid { creator.clone() } else { any(rng) };
+                if rng.chance(1, 10) {
+                    funds.push((NATIVE.to_string(), 1));
+                }
+                let uri = if rng.chance(1, 4) { None } else { Some(rng.pick(&URIS).to_string()) };
+                (s, Op::UpdateTokenMd { id: pick_tok(rng), uri })
+            }
+            95..=96 => ((if rng.chance(1, 2) { creator.clone() } else { any(rng) }), Op::FreezeTokenMd),
+            _ => {
+                let s = if valid { creator.clone() } else { any(rng) };
+                let amt = *rng.pick(&[ENABLE_FEE - 1, ENABLE_FEE, ENABLE_FEE, ENABLE_FEE + 1]);
+                funds.push((NATIVE.to_string(), amt));
+                (s, Op::EnableUpdatable)
+            }
+        };
+        // now and then attach stray funds to a message that does not look at them
+        if funds.is_empty() && rng.chance(1, 40) && sender != PUPPET {
+            funds.push(("uother".to_string(), 3));
+        }
+        r.step(&Step { at: t, sender, op, funds });
+    }
+    r
+}
+
+/// The property text evaluated on one recorded history.
+pub fn monitor(r: &Runner) -> Option<(String, String)> {
+    let v = r.setup.variant;
+    let init = r.init_obs.as_ref()?;
+    if init.num_tokens != 0 || !init.tokens.is_empty() {
+        return Some(("count-mismatch".into(), "a fresh collection reports tokens".into()));
+    }
+    let mut info_frozen: Option<(usize, InfoObs)> = None;
+    let mut md_frozen: Option<usize> = None;
+    for (i, rec) in r.recs.iter().enumerate() {
+        let (b, a) = (&rec.before, &rec.after);
+        let sender = &rec.step.sender;
+        // the token count always equals the number of existing tokens; ids are unique
+        if a.num_tokens as usize != a.tokens.len() {
+            return Some(("count-mismatch".into(), format!("step {} {:?}: NumTokens {} but AllTokens lists {}", i, rec.step.op, a.num_tokens, a.tokens.len())));
+        }
+        let ids: BTreeSet<&String> = a.tokens.iter().map(|t| &t.id).collect();
+        if ids.len() != a.tokens.len() {
+            return Some(("duplicate-id-listed".into(), format!("step {}: AllTokens lists an id twice", i)));
+        }
+        if a.minter_mismatch {
+            return Some(("minter-ownership-disagree".into(), format!("step {}: Minter and Ownership.owner differ", i)));
+        }
+        // a token can be created only by the minter, never with an existing id
+        if rec.ok {
+            if let Op::Mint { id, .. } = &rec.step.op {
+                if b.token(&token_name(*id)).is_some() {
+                    return Some(("duplicate-id-minted".into(), format!("step {}: mint of existing id {} by {} accepted", i, token_name(*id), sender)));
+                }
+                if b.minter.as_deref() != Some(sender.as_str()) {
+                    return Some(("mint-by-non-minter".into(), format!("step {}: mint by {} accepted, minter is {:?}", i, sender, b.minter)));
+                }
+            }
+        }
+        for t in &a.tokens {
+            if b.token(&t.id).is_none() {
+                let by_mint = rec.ok && matches!(&rec.step.op, Op::Mint { id, .. } if token_name(*id) == t.id) && b.minter.as_deref() == Some(sender.as_str());
+                if !by_mint {
+                    return Some(("token-created-without-minter".into(), format!("step {}: token {} appeared after {:?} from {}", i, t.id, rec.step.op, sender)));
+                }
+            }
+        }
+        // creator-editable fields: only the creator's update changes them; never after a freeze
+        if a.info.creator_fields() != b.info.creator_fields() {
+            let by_creator = rec.ok && matches!(rec.step.op, Op::UpdateInfo(_)) && *sender == b.info.creator;
+            if !by_creator {
+                return Some(("creator-field-changed-by-other".into(), format!("step {}: {:?} from {} changed collection info", i, rec.step.op, sender)));
+            }
+        }
+        if let Some((at, f)) = &info_frozen {
+            if a.info.creator_fields() != f.creator_fields() {
+                return Some(("frozen-info-changed".into(), format!("step {}: {:?} from {} changed collection info frozen at step {}", i, rec.step.op, sender, at)));
+            }
+        }
+        if rec.ok && matches!(rec.step.op, Op::FreezeInfo) {
+            if *sender != b.info.creator {
+                return Some(("freeze-by-non-creator".into(), format!("step {}: freeze by {} accepted, creator is {}", i, sender, b.info.creator)));
+            }
+            if info_frozen.is_none() {
+                info_frozen = Some((i, a.info.clone()));
+            }
+        }
+        // token metadata
+        if rec.ok {
+            if let Op::UpdateTokenMd { id, .. } = &rec.step.op {
+                if !v.updatable() || *sender != b.info.creator || b.token(&token_name(*id)).is_none() {
+                    return Some(("metadata-update-unauthorized".into(), format!("step {}: update_token_metadata({}) from {} accepted (creator {}, token exists: {})", i, token_name(*id), sender, b.info.creator, b.token(&token_name(*id)).is_some())));
+                }
+            }
+        }
+        for t in &a.tokens {
+            if let Some(bt) = b.token(&t.id) {
+                if bt.uri != t.uri {
+                    if let Some(at) = md_frozen {
+                        return Some(("frozen-metadata-changed".into(), format!("step {}: token {} uri {:?} -> {:?} after the metadata freeze of step {}", i, t.id, bt.uri, t.uri, at)));
+                    }
+                    let legit = rec.ok && v.updatable() && *sender == b.info.creator && matches!(&rec.step.op, Op::UpdateTokenMd { id, .. } if token_name(*id) == t.id);
+                    if !legit {
+                        return Some(("uri-changed-unauthorized".into(), format!("step {}: token {} uri changed by {:?} from {}", i, t.id, rec.step.op, sender)));
+                    }
+                }
+                // the non-transferable collection: owner constant between mint and burn
+                if v == Variant::Nt && bt.owner != t.owner {
+                    return Some(("nt-owner-changed".into(), format!("step {}: token {} owner {} -> {} by {:?}", i, t.id, bt.owner, t.owner, rec.step.op)));
+                }
+            }
+        }
+        if rec.ok && matches!(rec.step.op, Op::FreezeTokenMd) && md_frozen.is_none() {
+            md_frozen = Some(i);
+        }
+    }
+    None
+}
+
+#[derive(Deserialize)]
+struct ReplayFile {
+    history: Hist,
+}
+
+fn fingerprint(v: Variant, rec: &StepRec) -> u64 {
+    let mut h = std::collections::hash_map::DefaultHasher::new();
+    v.hash(&mut h);
+    rec.step.op.hash(&mut h);
+    rec.step.sender.hash(&mut h);
+    rec.step.funds.hash(&mut h);
+    rec.ok.hash(&mut h);
+    rec.before.hash(&mut h);
+    h.finish()
+}
+
+pub fn run(a: &Args) {
+    let out = OutDir::new(&a.out);
+    let mut rep = Report { property: "C09".into(), tier: a.tier.clone(), seed: a.seed, ..Default::default() };
+    let mut rng = Rng::new(a.seed);
+    let mut coq_cases: Vec<String> = vec![];
+    let mut distinct = BTreeSet::new();
+    let mut nviol = 0usize;
+    let mut handle = |r: Runner, rep: &mut Report, coq_cases: &mut Vec<String>, nviol: &mut usize, distinct: &mut BTreeSet<u64>| {
+        let v = r.setup.variant;
+        rep.evaluations += 1 + r.recs.len() as u64;
+        rep.bump(&format!("{}:instantiate:{}", v.name(), if r.alive() { "ok" } else { "err" }));
+        for rec in &r.recs {
+            rep.bump(&format!("{}:{}:{}", v.name(), rec.step.op.kind(), if rec.ok { "ok" } else { "err" }));
+            if !crate::c10::trivial_rejection(rec) {
+                distinct.insert(fingerprint(v, rec));
+            }
+        }
+        if let Some((k, what)) = monitor(&r) {
+            *nviol += 1;
+            if *nviol <= 20 {
+                let key = format!("C09:{}:{}", v.name(), k);
+                let kk = k.clone();
+                let small = shrink(&r.hist(), &|x: &Runner| matches!(monitor(x), Some((k2, _)) if k2 == kk));
+                let what2 = monitor(&run_hist(&small)).map(|x| x.1).unwrap_or(what);
+                let path = out.write_replay(&format!("C09-{}.json", *nviol), &replay_body("C09", &small, &what2, &key));
+                rep.violations.push(Violation { key, what: format!("{} ({} steps after shrinking): {}", v.name(), small.steps.len(), what2), replay: path });
+            }
+        }
+        if rep.samples.len() < 3 && r.recs.len() > 3 {
+            let rec = &r.recs[2];
+            rep.samples.push(serde_json::json!({"variant": v.name(), "step": format!("{:?}", rec.step), "ok": rec.ok, "num_tokens_after": rec.after.num_tokens}));
+        }
+        coq_cases.push(format!("CHist {}", r.coq_history()));
+    };
+    if let Some(p) = &a.replay {
+        let txt = std::fs::read_to_string(p).expect("replay file");
+        let rf: ReplayFile = serde_json::from_str(&txt).expect("replay json");
+        handle(run_hist(&rf.history), &mut rep, &mut coq_cases, &mut nviol, &mut distinct);
+    } else {
+        for v in Variant::ALL {
+            for h in scripted(v) {
+                handle(run_hist(&h), &mut rep, &mut coq_cases, &mut nviol, &mut distinct);
+            }
+        }
+        let per = if a.thorough() { 400 } else { 24 };
+        for v in Variant::ALL {
+            for _ in 0..per {
+                let len = rng.range(20, 45) as usize;
+                let r = random_hist(v, &mut rng, len);
+                handle(r, &mut rep, &mut coq_cases, &mut nviol, &mut distinct);
+            }
+        }
+    }
+    rep.distinct_nontrivial = distinct.len() as u64;
+    rep.rule = "evaluations = instantiations + executed calls, each followed by the full set of queries. Per variant (sg721-base, sg721-updatable fresh and migrated-from-base, sg721-metadata-onchain, sg721-nt): scripted histories for duplicate ids / foreign minters / burn and re-mint, two-step ownership hand-over with expiry at t-1,t,t+1 and renounce, every mutating message from creator/minter/token owner/stranger after a collection-info freeze and on a fresh collection, token-metadata update/freeze/enable with fee-1,fee,fee+1 and wrong coins, approvals and operators with expirations at t-1,t,t+1, send to contract/account, instantiation guards (non-contract sender, funds, description 512/513 bytes incl. multi-byte, URL pool), update_collection_info field semantics; then random histories of 20-45 calls, ~75% from the role the call needs. Non-trivial = call (distinct by variant, message, sender, funds, outcome and prior observation) that was not rejected merely because the variant's ExecuteMsg lacks the message.".into();
+    out.write_cases("C09", "From LP Require Import Collection C09Corr.", "c09_case", "c09_check", &coq_cases, 6, &mut rep);
+    out.finish(&rep);
+    println!("C09 harness: {} evaluations in {} histories, {} monitor violations", rep.evaluations, coq_cases.len(), nviol);
 }
